@@ -378,4 +378,153 @@ Section A64.
     destruct HE as (E1 & E2). fold sD. rewrite E1, E2. unfold sD. cbn [csp called]. rewrite C1, B1, A1.
     split; [lia|]. eexists. eexists. reflexivity.
   Qed.
+  (* ---- where the arguments are when the bl executes ---- *)
+  Definition a64_wf (a : argv) : Prop := match a with AInt v => 0 <= v < 2 ^ 64 | ASym sy => 0 <= sym_addr sy end.
+
+  Lemma load_value_spec r a s : a64_wf a ->
+    let s' := crun (load_value r a) s in
+    cr s' r = a64_denotes a /\ (forall r', r' <> r -> cr s' r' = cr s r') /\ csp s' = csp s /\ cmem s' = cmem s /\ called s' = called s.
+  Proof.
+    destruct a as [v|sy]; cbn [load_value a64_wf a64_denotes]; intros H; [apply load_immediate_spec|apply load_symbol_spec]; exact H.
+  Qed.
+
+  Lemma crun_app l1 l2 s : crun (l1 ++ l2) s = crun l2 (crun l1 s).
+  Proof. unfold Model.crun. apply fold_left_app. Qed.
+
+  (* the stack arguments: the i-th element of the list (numbered from k) is stored at [sp + (n - i - 1) * 8] through x0 *)
+  Lemma stack_loop n : forall (l : list (argv * option nat)) k s,
+    (forall a o, In (a, o) l -> a64_wf a) ->
+    let s' := crun (flat_map (fun ia => load_value X0 (fst (snd ia)) ++ [StrSlot X0 ((n - fst ia - 1) * 8)]) (enumerate_z k l)) s in
+    csp s' = csp s /\ called s' = called s /\
+    (forall j a o, nth_error l j = Some (a, o) -> cmem s' (csp s + (n - (k + Z.of_nat j) - 1) * 8) = a64_denotes a) /\
+    (forall addr, (forall j, (j < length l)%nat -> addr <> csp s + (n - (k + Z.of_nat j) - 1) * 8) -> cmem s' addr = cmem s addr) /\
+    (forall r, r <> X0 -> cr s' r = cr s r).
+  Proof.
+    induction l as [|[a o] l IH]; intros k s Hwf; cbn [enumerate_z flat_map].
+    - cbn. repeat split; try reflexivity. intros j a o Hj. destruct j; discriminate Hj.
+    - cbn zeta. rewrite crun_app, crun_app. cbn [fst snd].
+      destruct (load_value_spec X0 a s (Hwf a o (or_introl eq_refl))) as (L1 & L2 & L3 & L4 & L5).
+      set (s1 := crun (load_value X0 a) s) in *.
+      set (s2 := crun [StrSlot X0 ((n - k - 1) * 8)] s1).
+      assert (S2 : csp s2 = csp s /\ called s2 = called s /\ cr s2 = cr s1 /\
+                   cmem s2 = setm (cmem s) (csp s + (n - k - 1) * 8) (a64_denotes a)).
+      { unfold s2. cbn. rewrite L3, L4, L5, L1. repeat split; reflexivity. }
+      destruct S2 as (S21 & S22 & S23 & S24).
+      destruct (IH (k + 1) s2 (fun a0 o0 H0 => Hwf a0 o0 (or_intror H0))) as (I1 & I2 & I3 & I4 & I5).
+      fold s2. set (s3 := crun _ s2) in *.
+      split; [rewrite I1; exact S21|]. split; [rewrite I2; exact S22|]. split; [|split].
+      + intros j a0 o0 Hj. destruct j as [|j]; cbn [nth_error] in Hj.
+        * injection Hj as <- <-. rewrite I4.
+          -- rewrite S24. unfold setm. replace (k + Z.of_nat 0) with k by lia. rewrite Z.eqb_refl. reflexivity.
+          -- intros j Hjl. rewrite S21. lia.
+        * rewrite <- (I3 j a0 o0 Hj). rewrite S21. f_equal. lia.
+      + intros addr Ha. rewrite I4.
+        * rewrite S24. unfold setm. destruct (addr =? csp s + (n - k - 1) * 8) eqn:E; [|reflexivity].
+          exfalso. apply (Ha 0%nat); [cbn; lia|]. apply Z.eqb_eq in E. rewrite E. lia.
+        * intros j Hjl. rewrite S21. intros E. apply (Ha (S j)); [cbn [length]; lia|]. rewrite E. lia.
+      + intros r Hr. rewrite I5 by exact Hr. rewrite S23. apply L2. exact Hr.
+  Qed.
+
+  (* the register arguments: every one ends up in its register (the registers are distinct) *)
+  Lemma reg_loop : forall (l : list (argv * nat)) s,
+    NoDup (map snd l) -> (forall a r, In (a, r) l -> a64_wf a) ->
+    let s' := crun (flat_map (fun p : argv * option nat => match snd p with Some r => load_value r (fst p) | None => [] end)
+                             (map (fun ar => (fst ar, Some (snd ar))) l)) s in
+    csp s' = csp s /\ called s' = called s /\ cmem s' = cmem s /\
+    (forall a r, In (a, r) l -> cr s' r = a64_denotes a) /\ (forall r, ~ In r (map snd l) -> cr s' r = cr s r).
+  Proof.
+    induction l as [|[a r] l IH]; intros s ND Hwf; cbn [map flat_map].
+    - cbn. repeat split; try reflexivity. intros a r [].
+    - cbn zeta. cbn [fst snd]. rewrite crun_app.
+      destruct (load_value_spec r a s (Hwf a r (or_introl eq_refl))) as (L1 & L2 & L3 & L4 & L5).
+      set (s1 := crun (load_value r a) s) in *.
+      inversion ND as [|? ? Hnin ND']; subst.
+      destruct (IH s1 ND' (fun a0 r0 H0 => Hwf a0 r0 (or_intror H0))) as (I1 & I2 & I3 & I4 & I5).
+      set (s2 := crun _ s1) in *.
+      split; [rewrite I1; exact L3|]. split; [rewrite I2; exact L5|]. split; [rewrite I3; exact L4|]. split.
+      + intros a0 r0 [E|Hin]; [injection E as <- <-; rewrite I5 by exact Hnin; exact L1|exact (I4 a0 r0 Hin)].
+      + intros r0 Hr0. cbn [map snd] in Hr0. rewrite I5 by (intros H; apply Hr0; right; exact H). apply L2. intros ->. apply Hr0. left. reflexivity.
+  Qed.
+
+  Lemma nth_error_skipn' {A} : forall k (l : list A) j, nth_error (skipn k l) j = nth_error l (k + j).
+  Proof. induction k as [|k IH]; intros l j; [reflexivity|]. destruct l as [|x t]; [destruct j; reflexivity|]. cbn. apply IH. Qed.
+
+  Lemma nth_error_rev' {A} : forall (l : list A) i, (i < length l)%nat -> nth_error (rev l) i = nth_error l (length l - S i).
+  Proof.
+    induction l as [|x t IH]; intros i Hi; cbn [length] in Hi; [lia|]. cbn [rev length].
+    destruct (Nat.eq_dec i (length t)) as [->|Hne].
+    - rewrite nth_error_app2 by (rewrite rev_length; lia). rewrite rev_length, Nat.sub_diag. replace (S (length t) - S (length t))%nat with 0%nat by lia. reflexivity.
+    - rewrite nth_error_app1 by (rewrite rev_length; lia). rewrite IH by lia.
+      replace (S (length t) - S i)%nat with (S (length t - S i)) by lia. reflexivity.
+  Qed.
+
+  Lemma filter_rev_split regs args :
+    filter is_stack (rev (passed_args regs args)) = rev (map (fun a => (a, None)) (skipn (length regs) args)) /\
+    filter (fun p => negb (is_stack p)) (rev (passed_args regs args)) = rev (map (fun ar => (fst ar, Some (snd ar))) (combine args regs)).
+  Proof.
+    rewrite passed_args_split, rev_app_distr, !filter_app.
+    assert (A : forall l : list argv, filter is_stack (rev (map (fun a => (a, @None nat)) l)) = rev (map (fun a => (a, None)) l) /\
+                                      filter (fun p => negb (is_stack p)) (rev (map (fun a => (a, @None nat)) l)) = []).
+    { intros l. rewrite <- !map_rev. generalize (rev l). intros l0. induction l0 as [|x t [IH1 IH2]]; cbn; [tauto|]. rewrite IH1, IH2. tauto. }
+    assert (B : forall l : list (argv * nat), filter is_stack (rev (map (fun ar => (fst ar, Some (snd ar))) l)) = [] /\
+                  filter (fun p => negb (is_stack p)) (rev (map (fun ar => (fst ar, Some (snd ar))) l)) = rev (map (fun ar => (fst ar, Some (snd ar))) l)).
+    { intros l. rewrite <- !map_rev. generalize (rev l). intros l0. induction l0 as [|x t [IH1 IH2]]; cbn; [tauto|]. rewrite IH1, IH2. tauto. }
+    destruct (A (skipn (length regs) args)) as [A1 A2]. destruct (B (combine args regs)) as [B1 B2].
+    rewrite A1, A2, B1, B2, app_nil_r. cbn [app]. tauto.
+  Qed.
+
+  (* at the bl: the i-th argument is in the i-th register of the convention while registers remain, the others are in the slots
+     [sp], [sp + 8], ... in order; integer arguments with their exact value, symbol arguments as the symbol's address *)
+  Theorem a64_arguments_at_the_call : forall cv callee args s0,
+    a64_accepts cv = Ok tt -> NoDup (cregs cv) -> (forall a, In a args -> a64_wf a) ->
+    let s1 := crun (call_a64 cv callee args) s0 in
+    exists regs_at sp_at mem_at, called s1 = Some (callee, regs_at, sp_at, mem_at) /\
+      (forall i a r, nth_error args i = Some a -> nth_error (cregs cv) i = Some r -> regs_at r = a64_denotes a) /\
+      (forall j a, nth_error args (length (cregs cv) + j) = Some a -> mem_at (sp_at + 8 * Z.of_nat j) = a64_denotes a).
+  Proof.
+    intros cv callee args s0 Hacc ND Hwf s1.
+    destruct (a64_stack_neutral cv callee args Hacc) as (H16 & Hle & Heq).
+    destruct (filter_rev_split (cregs cv) args) as [Fs Fr].
+    set (n := Z.of_nat (length (filter is_stack (rev (passed_args (cregs cv) args))))) in *.
+    set (adj := align_address (n * 8) 16) in *.
+    unfold s1. rewrite Heq, Fs, Fr. rewrite !crun_app.
+    set (sA := crun (if adj =? 0 then [] else [SubSp adj]) s0).
+    assert (HA : csp sA = csp s0 - adj). { unfold sA. destruct (adj =? 0) eqn:E; cbn; lia. }
+    set (stk := rev (map (fun a => (a, @None nat)) (skipn (length (cregs cv)) args))).
+    assert (Hn : n = Z.of_nat (length stk)). { unfold n. rewrite Fs. reflexivity. }
+    destruct (stack_loop n stk 0 sA) as (B1 & B2 & B3 & B4 & B5).
+    { intros a o Hin. unfold stk in Hin. apply in_rev, in_map_iff in Hin as (a0 & E & Hin). injection E as <- _.
+      apply Hwf. rewrite <- (firstn_skipn (length (cregs cv)) args). apply in_or_app. right. exact Hin. }
+    set (sB := crun _ sA) in *.
+    rewrite <- map_rev.
+    destruct (reg_loop (rev (combine args (cregs cv))) sB) as (C1 & C2 & C3 & C4 & C5).
+    { rewrite map_rev. apply NoDup_rev. clear -ND. revert args. induction (cregs cv) as [|r rs IH]; intros [|a t]; cbn; try constructor.
+      - inversion ND; subst. intros H. apply in_map_iff in H as ([a0 r0] & E & Hin). cbn in E. subst r0. apply in_combine_r in Hin. contradiction.
+      - inversion ND; subst. apply IH. assumption. }
+    { intros a r Hin. apply in_rev in Hin. apply in_combine_l in Hin. apply Hwf, Hin. }
+    set (sC := crun _ sB) in *.
+    set (sD := crun [Bl callee] sC).
+    assert (HD : called sD = Some (callee, cr sC, csp sC, cmem sC)) by reflexivity.
+    assert (HE : called (crun (if adj =? 0 then [] else [AddSp adj]) sD) = called sD).
+    { destruct (adj =? 0); reflexivity. }
+    exists (cr sC), (csp sC), (cmem sC). split; [rewrite HE; exact HD|]. split.
+    - intros i a r Ha Hr. apply C4. apply -> in_rev.
+      clear -Ha Hr. revert args i Ha Hr. induction (cregs cv) as [|r0 rs IH]; intros args i Ha Hr; [destruct i; discriminate Hr|].
+      destruct args as [|a0 t]; [destruct i; discriminate Ha|]. destruct i as [|i]; cbn in *.
+      + injection Ha as <-. injection Hr as <-. left. reflexivity.
+      + right. eapply IH; eauto.
+    - intros j a Ha. rewrite C3, C1, B1.
+      assert (Hj : nth_error (skipn (length (cregs cv)) args) j = Some a).
+      { rewrite nth_error_skipn'. exact Ha. }
+      assert (Hlen : (j < length (skipn (length (cregs cv)) args))%nat) by (apply nth_error_Some; congruence).
+      assert (Hstk : length stk = length (skipn (length (cregs cv)) args)) by (unfold stk; rewrite rev_length, map_length; reflexivity).
+      (* position of the j-th stack argument in the reversed list *)
+      specialize (B3 (length stk - 1 - j)%nat a None).
+      rewrite <- B3.
+      + f_equal. rewrite Hn. lia.
+      + assert (Hl0 : (0 < length stk)%nat) by lia.
+        unfold stk at 1. rewrite nth_error_rev' by (rewrite map_length; lia). rewrite map_length.
+        replace (length (skipn (length (cregs cv)) args) - S (length stk - 1 - j))%nat with j by lia.
+        rewrite nth_error_map, Hj. reflexivity.
+  Qed.
 End A64.
